@@ -13,7 +13,7 @@ func init() {
 		Rule:       "Each run: one bufiox writer (io.Writer-backed over a simulated Sink, or bytes-backed over a nil/empty/partly filled/full caller slice) driven through 1..300 operations from {Malloc(n), WriteBinary, late/partial/re-fill of any open region, Flush, negative counts}; every region has its own keyed pattern; the Sink fails at a tape-chosen k-th write accepting a strict prefix; allocator mode and co-tenant per run. Oracle: region-list model (exactly-once, in order, WrittenLen, sticky error, target slice).",
 		Components: realComponents,
 		Probes: []string{"writer_alloc_or_growth", "flush_with_0_pending", "flush_with_1_pending", "flush_with_2_or_more_pending", "region_filled_after_growth",
-			"writebinary_larger_than_buffer", "sink_error_at_first_flush", "sink_error_at_later_flush", "sticky_error_checked", "bytes_writer_grown_out_of_initial", "every_kth_sink_write_enumerated"},
+			"writebinary_larger_than_buffer", "sink_error_at_first_flush", "sink_error_at_later_flush", "sticky_error_checked", "bytes_writer_grown_out_of_initial", "every_kth_sink_write_enumerated", "sink_error_with_full_count"},
 	})
 }
 
@@ -49,7 +49,7 @@ func mallocSize(st *sim.Stream, written int) int {
 	case 5:
 		return 1 + st.Choose(20000)
 	default:
-		return []int{70000, 33000, 12000, 131073}[st.Choose(4)]
+		return []int{70000, 33000, 12000, 131073, 262144, 262145, 300000, 524289, 1<<20 + 1}[st.Pick(4, 4, 4, 3, 1, 1, 1, 1, 1)]
 	}
 }
 
@@ -125,7 +125,7 @@ func (sc *writerScenario) step(st *sim.Stream, weights []int) {
 	case 2:
 		m.LateFill(st)
 	case 3:
-		if m.target != nil && m.epoch > 0 {
+		if m.target != nil && m.epoch > 0 && !m.multiFlushBytes {
 			// multi-flush bytes writers are not defined by the property: only an extra
 			// Flush with nothing written
 			if len(m.items) == 0 {
